@@ -297,7 +297,16 @@ fn emissions_part(s: &mut Scen, rng: &mut Rng, rep: &mut Report) {
             }
             4 => {
                 // user activity (claims inside the wrapper)
-                let act = if rng.chance(1, 2) { Act::Deposit { u, b, amt: 1 + rng.below(1_000_000_000), upto: false } } else { Act::Withdraw { u, b, amt: 1 + rng.below(1_000_000), all: false } };
+                // (a third of the withdrawals take out exactly the whole position WITHOUT closing it: the slot stays active and
+                //  empty, and a later deposit lands on it — the accrual clock must be re-stamped then, too)
+                let act = match rng.below(3) {
+                    0 => Act::Deposit { u, b, amt: 1 + rng.below(1_000_000_000), upto: false },
+                    1 => Act::Withdraw { u, b, amt: 1 + rng.below(1_000_000), all: false },
+                    _ => {
+                        rep.bump("exact_withdraw_tried");
+                        Act::Withdraw { u, b, amt: s.position_amount(u, b), all: false }
+                    }
+                };
                 if let Some(Ok(())) = s.step(&act, &mut scratch) {
                     last_claim[u] = Some(s.w.clock_ts);
                     check(s, paid, funded_tokens, "user activity", rep);
